@@ -194,6 +194,10 @@ theorem cellAverage_const_aux {K : Type} [Field K] [CharZero K] (vals : Nat → 
     exact_mod_cast this
   field_simp
 
+theorem foldl_pts_eq {K : Type} [Field K] {α : Type} (g : α → K) (l : List α) :
+    l.foldl (fun acc p => acc + g p) 0 = (l.map g).sum := by
+  rw [foldl_add_eq, zero_add]
+
 theorem mem_kMap (grid : Fin 3 → Nat) (kpts : List (Vec Rat)) (c : Nat) (hc : c < grid 0 * grid 1 * grid 2)
     (ik : Nat) :
     ik ∈ (kMap grid kpts).getD c [] ↔ ik < kpts.length ∧ kIndex grid (kpts.getD ik (fun _ => 0)) = some c := by
